@@ -193,3 +193,17 @@ def dcd_make_fixed(src, dst, n_atoms, n_frames, fixed=(3, 7)):
         pos += 3 * block
     with open(dst, "wb") as f:
         f.write(b"".join(out))
+
+
+def arc_write(path, xyz_nm, box=True):
+    """TINKER .arc archive (mdtraj reads but does not write this format): per frame a count/title line, an optional
+    periodic-box line, and one line per atom: index, name, x y z in angstroms, atom type, bonded partners."""
+    x = np.asarray(xyz_nm, np.float64) * 10.0
+    with open(path, "w") as f:
+        for k in range(x.shape[0]):
+            f.write("%6d  frames that identify themselves\n" % x.shape[1])
+            if box:
+                f.write("%12.6f%12.6f%12.6f%12.6f%12.6f%12.6f\n" % (600.0 + 1.25 * k, 610.0 + 1.25 * k, 620.0 + 1.25 * k, 90.0, 90.0, 90.0))
+            for a in range(x.shape[1]):
+                partner = a + 2 if a % 2 == 0 and a + 1 < x.shape[1] else a
+                f.write("%6d  %-3s%12.6f%12.6f%12.6f%6d%6d\n" % (a + 1, "N", x[k, a, 0], x[k, a, 1], x[k, a, 2], 24, partner))
